@@ -100,6 +100,9 @@ impl Polygon {
 
     /// Devuelve un polígono que es un espejo respecto al eje X
     pub fn mirror_y(&self) -> Self {
+        if self.0.is_empty() {
+            return Self(vec![]);
+        }
         let mirror: Vec<_> = self.0.iter().map(|p| point![p.x, -p.y]).collect();
         let mut counterclockwise = vec![mirror[0]];
         counterclockwise.extend(mirror[1..].iter().rev());
